@@ -65,21 +65,26 @@ Inductive extracted (cell : Type) : Type :=
 | XIndexError.
 Arguments XSame {cell}. Arguments XColumn {cell}. Arguments XScalar {cell}. Arguments XIndexError {cell}.
 
-(* names = the columns of the underlying frame (the annotated function names, in dict order);
-   has_control = bool(self.control_levels) *)
+(* names = the columns of the underlying frame (the annotated function names, in dict order) *)
+(* underlying_result.iloc[:, 0] *)
+Definition iloc_col0 {cell} (names : list name) (t : table cell) : extracted cell :=
+  match names with
+  | nm :: _ => XColumn nm (map (fun kr => (fst kr, option_map row_at0 (snd kr))) t)
+  | [] => XIndexError
+  end.
+
+(* underlying_result.iloc[0] on the Series that `overall` is without control features *)
+Definition iloc_row0 {cell} (t : table cell) : extracted cell :=
+  match t with
+  | [(_, Some (e :: _))] => XScalar (snd e)
+  | _ => XIndexError
+  end.
+
+(* has_control = bool(self.control_levels) *)
 Definition extract_result {cell} (callable has_control no_control_levels : bool) (names : list name)
            (t : table cell) : extracted cell :=
   if callable then
-    if has_control || no_control_levels then
-      match names with
-      | nm :: _ => XColumn nm (map (fun kr => (fst kr, option_map row_at0 (snd kr))) t)
-      | [] => XIndexError
-      end
-    else
-      match t with
-      | [(_, Some (e :: _))] => XScalar (snd e)
-      | _ => XIndexError
-      end
+    if has_control || no_control_levels then iloc_col0 names t else iloc_row0 t
   else XSame t.
 
 (* ---------- feature names: _process_features + GroupFeature.__init__ ---------- *)
